@@ -421,3 +421,81 @@ Example C06_keyed_guard_example :
   equiv ArrValue AohDeep L R = true /\
   omap shows_difference (compare_to path_eq_real (cfg_of "value" "deep") L R) = Ok false.
 Proof. vm_compute. repeat split; reflexivity. Qed.
+
+(* ====================================================================== *)
+(* An entry's path leads to the values it reports: the path TEXT of an entry
+   (DiffEntry.path, built by `path + escape_path_section(key, path.separator)` /
+   `path + "[idx]"`), fed into a required query on the left (right) document,
+   yields exactly one result - the node the truthfulness theorem says the
+   document holds at the entry's location, i.e. the entry's left (right) value.
+   Proofs: Proofs/ResolveDiff.v (text = build_orig of the location, NO condition on
+   keys), Proofs/ResolveTools.v, Proofs/ResolveMain.v; vocabulary Model/PathBuild.v
+   (explained in Properties/C02.v).  Guard [pb_safe Dot doc loc] = the keys on the
+   way are ones escape_path_section protects = listed finding F5 (odd_key_path);
+   witness below.  The evaluator's oracles / parameters are universally quantified. *)
+From YP Require Import PathParser Eval PathBuild ResolveEval ResolveDiff ResolveTools.
+
+Theorem C06_entry_path_resolves_partial :
+  forall elit ere nstr vstr kw_handler creator path_eq cfg L R es e f,
+    positional cfg -> wf_doc L = true -> wf_doc R = true ->
+    compare_to path_eq cfg L R = Ok es -> In e es ->
+    e_path e = build_orig (e_loc e)
+    /\ (has_left e = true -> pb_safe Dot L (e_loc e) = true ->
+        exists p, prepare (S f) (e_path e) = Ok p
+                  /\ get_required elit ere nstr vstr kw_handler creator p L = ([pb_coords L (e_loc e) (e_lhs e)], Done))
+    /\ (has_right e = true -> pb_safe Dot R (e_loc e) = true ->
+        exists p, prepare (S f) (e_path e) = Ok p
+                  /\ get_required elit ere nstr vstr kw_handler creator p R = ([pb_coords R (e_loc e) (e_rhs e)], Done)).
+Proof. exact diff_entry_resolves. Qed.
+Print Assumptions C06_entry_path_resolves_partial.
+
+(* the text of every entry of a positional diff, with no condition on the keys *)
+Theorem C06_entry_path_text :
+  forall path_eq cfg L R es,
+    positional cfg -> compare_to path_eq cfg L R = Ok es ->
+    Forall (fun e => e_path e = build_orig (e_loc e)) es.
+Proof. exact entry_path_text. Qed.
+Print Assumptions C06_entry_path_text.
+
+(* non-vacuity: keys with every escapable character, nested sequences; every
+   entry's location satisfies the guard on the side(s) it speaks about *)
+Definition C06_esc_key : string := "a\b.c/d(e)f[g]h^i$j%k l'm""n".
+Definition C06_escL : node :=
+  mp 0 [(lf 1 (PStr C06_esc_key), sq 2 [lf 3 (PInt 1); sq 4 [mp 5 [(lf 6 (PStr "p q"), lf 7 (PStr "old"))]]]);
+        (lf 8 (PStr "gone/key"), lf 9 (PInt 0))].
+Definition C06_escR : node :=
+  mp 10 [(lf 1 (PStr C06_esc_key), sq 12 [lf 3 (PInt 1); sq 14 [mp 15 [(lf 6 (PStr "p q"), lf 17 (PStr "new"))]]; lf 18 (PInt 2)])].
+
+Example C06_entry_path_nonvacuous :
+  wf_doc C06_escL = true /\ wf_doc C06_escR = true
+  /\ omap (map (fun e => (e_action e, e_path e))) (compare_to path_eq_real (cfg_of "position" "dpos") C06_escL C06_escR)
+     = Ok [ (ASame, "a\\b\.c/d\(e\)f\[g\]h\^i\$j\%k\ l\'m\""n.[0]");
+            (AChange, "a\\b\.c/d\(e\)f\[g\]h\^i\$j\%k\ l\'m\""n.[1].[0].p\ q");
+            (AAdd, "a\\b\.c/d\(e\)f\[g\]h\^i\$j\%k\ l\'m\""n.[2]");
+            (ADelete, "gone/key") ]
+  /\ omap (forallb (fun e => (negb (has_left e) || pb_safe Dot C06_escL (e_loc e))
+                             && (negb (has_right e) || pb_safe Dot C06_escR (e_loc e))))
+          (compare_to path_eq_real (cfg_of "position" "dpos") C06_escL C06_escR) = Ok true.
+Proof. vm_compute. repeat split; reflexivity. Qed.
+
+(* the guard is needed (finding F5): {"*": 1, "b": 2} against {"*": 3, "b": 2} -
+   the CHANGE entry for the key "*" has the path text "*", which selects both
+   values of either document *)
+Definition C06_kw0 (_ : bool) (_ : keyword) (_ : string) (_ : rval) (_ : ctx) : gen rval := gnil.
+Definition C06_cr0 (_ : list pseg) (_ : nat) (_ : rval) (_ : ctx) : gen rval := gnil.
+Definition C06_requery (d : node) (t : string) : option (list N) :=
+  match prepare 5 t with
+  | Ok p => Some (map (fun x => match x with RCoords (RNode n) _ _ _ _ => node_oid n | _ => 999%N end)
+                      (fst (get_required (fun _ => Ok Searches.LFail) (fun _ _ => Ok (Searches.RMatch false))
+                                         (fun _ => "") (fun _ => "") C06_kw0 C06_cr0 p d)))
+  | _ => None
+  end.
+
+Theorem C06_entry_path_resolves_refuted :
+  let L := mp 0 [(lf 1 (PStr "*"), lf 2 (PInt 1)); (lf 3 (PStr "b"), lf 4 (PInt 2))] in
+  let R := mp 5 [(lf 1 (PStr "*"), lf 6 (PInt 3)); (lf 3 (PStr "b"), lf 4 (PInt 2))] in
+  omap (map (fun e => (e_action e, e_path e, e_loc e))) (compare_to path_eq_real dflt L R)
+    = Ok [ (AChange, "*", [RKey (PStr "*")]); (ASame, "b", [RKey (PStr "b")]) ]
+  /\ pb_safe Dot L [RKey (PStr "*")] = false
+  /\ C06_requery L "*" = Some [2; 4]%N.
+Proof. vm_compute. repeat split; reflexivity. Qed.
